@@ -364,7 +364,7 @@ Proof.
   apply E. rewrite Hl. discriminate.
 Qed.
 
-(* the code as it is: nothing but the labels of the key is replayed *)
+(* the code BEFORE fix 59cdf67: nothing but the labels of the key is replayed (the code as it is: RuleDB/GetAll.v) *)
 Lemma labs_known_nil d k : labels_known d k -> labs_known d (key_labels k []).
 Proof. unfold labels_known. rewrite key_labels_nil. auto. Qed.
 
